@@ -346,15 +346,18 @@ pub fn run(tier: Tier) -> i32 {
         enabled: BTreeSet<usize>,
         /// how to establish it: 0 = set every key explicitly, 1 = via unset+defaults (curated), 2 = with unknown keys
         unknown_keys: bool,
+        /// keys that are left out of the configuration altogether (absent = not enabled at this
+        /// level); `None` = every key is written explicitly
+        absent: Option<BTreeSet<usize>>,
     }
     let cur_cfg = cfg_map(&proto.config);
     let curated_on: BTreeSet<usize> = keys.iter().enumerate().filter(|(_, k)| cur_cfg.get(*k).cloned().flatten() == Some(true)).map(|(i, _)| i).collect();
     let all_on: BTreeSet<usize> = (0..keys.len()).collect();
     let mut cfgs: Vec<Cfg> = vec![
-        Cfg { name: "all-off".into(), enabled: BTreeSet::new(), unknown_keys: false },
-        Cfg { name: "all-on".into(), enabled: all_on.clone(), unknown_keys: false },
-        Cfg { name: "curated".into(), enabled: curated_on.clone(), unknown_keys: false },
-        Cfg { name: "curated+unknown-keys".into(), enabled: curated_on.clone(), unknown_keys: true },
+        Cfg { name: "all-off".into(), enabled: BTreeSet::new(), unknown_keys: false, absent: None },
+        Cfg { name: "all-on".into(), enabled: all_on.clone(), unknown_keys: false, absent: None },
+        Cfg { name: "curated".into(), enabled: curated_on.clone(), unknown_keys: false, absent: None },
+        Cfg { name: "curated+unknown-keys".into(), enabled: curated_on.clone(), unknown_keys: true, absent: None },
     ];
     for (bname, base) in [("all-off", BTreeSet::new()), ("all-on", all_on.clone()), ("curated", curated_on.clone())] {
         for ki in 0..keys.len() {
@@ -364,9 +367,23 @@ pub fn run(tier: Tier) -> i32 {
             } else {
                 e.insert(ki);
             }
-            cfgs.push(Cfg { name: format!("{bname}^{}", keys[ki]), enabled: e, unknown_keys: false });
+            cfgs.push(Cfg { name: format!("{bname}^{}", keys[ki]), enabled: e, unknown_keys: false, absent: None });
         }
     }
+    // sparse configurations: a rule the configuration does not mention at all (what a JSON object
+    // written by hand looks like): one key alone in an otherwise empty configuration; the curated
+    // configuration with one key removed; every other key written
+    for ki in 0..keys.len() {
+        let only: BTreeSet<usize> = [ki].into_iter().collect();
+        let mut rest = all_on.clone();
+        rest.remove(&ki);
+        cfgs.push(Cfg { name: format!("sparse-only:{}", keys[ki]), enabled: only, unknown_keys: false, absent: Some(rest) });
+        let mut e = curated_on.clone();
+        e.remove(&ki);
+        cfgs.push(Cfg { name: format!("curated-without-key:{}", keys[ki]), enabled: e, unknown_keys: false, absent: Some([ki].into_iter().collect()) });
+    }
+    let sparse_alternating: BTreeSet<usize> = all_on.iter().filter(|i| *i % 3 == 0).cloned().collect();
+    cfgs.push(Cfg { name: "sparse:every-third-key-absent".into(), enabled: all_on.difference(&sparse_alternating).cloned().collect(), unknown_keys: false, absent: Some(sparse_alternating) });
     // pairs of co-firing rules: only the pair on / everything but the pair on, and 2-partitions
     let mut pairs: BTreeSet<(usize, usize)> = BTreeSet::new();
     for d in &cover {
@@ -380,17 +397,17 @@ pub fn run(tier: Tier) -> i32 {
     let pair_cap = tier.pick(300, 5000);
     for (a, b) in pairs.iter().take(pair_cap) {
         let e: BTreeSet<usize> = [*a, *b].into_iter().collect();
-        cfgs.push(Cfg { name: format!("only:{}+{}", keys[*a], keys[*b]), enabled: e.clone(), unknown_keys: false });
+        cfgs.push(Cfg { name: format!("only:{}+{}", keys[*a], keys[*b]), enabled: e.clone(), unknown_keys: false, absent: None });
         let mut rest = all_on.clone();
         rest.remove(a);
         rest.remove(b);
-        cfgs.push(Cfg { name: format!("all-on-minus:{}+{}", keys[*a], keys[*b]), enabled: rest, unknown_keys: false });
+        cfgs.push(Cfg { name: format!("all-on-minus:{}+{}", keys[*a], keys[*b]), enabled: rest, unknown_keys: false, absent: None });
     }
     // 2-partitions of the enabled set: halves by index parity / first half
     let evens: BTreeSet<usize> = all_on.iter().filter(|i| *i % 2 == 0).cloned().collect();
     let odds: BTreeSet<usize> = all_on.iter().filter(|i| *i % 2 == 1).cloned().collect();
-    cfgs.push(Cfg { name: "partition:even".into(), enabled: evens, unknown_keys: false });
-    cfgs.push(Cfg { name: "partition:odd".into(), enabled: odds, unknown_keys: false });
+    cfgs.push(Cfg { name: "partition:even".into(), enabled: evens, unknown_keys: false, absent: None });
+    cfgs.push(Cfg { name: "partition:odd".into(), enabled: odds, unknown_keys: false, absent: None });
     report.set("configurations", cfgs.len() as u64);
     report.set("co_firing_pairs", pairs.len() as u64);
 
@@ -406,7 +423,11 @@ pub fn run(tier: Tier) -> i32 {
             let c = &cfgs[ci as usize];
             // establish the configuration on the long-lived group
             for (ki, k) in keys.iter().enumerate() {
-                g.config.set_rule_enabled(k, c.enabled.contains(&ki));
+                if c.absent.as_ref().is_some_and(|a| a.contains(&ki)) {
+                    g.config.unset_rule_enabled(k);
+                } else {
+                    g.config.set_rule_enabled(k, c.enabled.contains(&ki));
+                }
             }
             if c.unknown_keys {
                 g.config.set_rule_enabled("NoSuchRuleXyz", true);
